@@ -20,7 +20,30 @@ Oracle (no model involved): on the observed rows / start_workflow calls of the r
               context of the trigger's project (and trust when auth is enabled)
   not-early   nothing fires more than 2 s before its due time
 
-Self-test mutations (each applied alone to a scratch worktree, each gives a VIOLATION), see SELFTEST below.
+The lookup mode of advance_cron_trigger (row addressed by t.name or by t.id) is extracted from the source on every
+run (translate/tr_croncfg.py -> Gen/CronCfg.v, lookup_by_name) and selects the model's `resolve`.
+
+FINDING on the unchanged tree (signature `same-name-public-trigger`, theorems C17_*_refuted_ambiguous_names):
+advance_cron_trigger addresses the row by NAME; get_cron_trigger(name) under the trigger's project context also sees
+other projects' PUBLIC triggers and returns `.first()`. With a private trigger `a` in one project and a public trigger
+`a` in another, advancing the private one updates / overwrites the public one's row (next time and count), its own
+row is not advanced, one occurrence is started twice, a count-1 trigger fires twice (CORPUS[4], CORPUS[5]).
+Minimal fix tested in a scratch worktree: pass `t.id` instead of `t.name` to delete_cron_trigger and
+update_cron_trigger in periodic.advance_cron_trigger (check then exits 0; the model follows through Gen/CronCfg.v).
+
+Self-test mutations (each applied alone to a scratch worktree of /repo; each gives its own VIOLATION line, in
+addition to the finding above):
+  M1 periodic.advance_cron_trigger: query_filter=None (no compare-and-swap)         -> occurrence-twice, next-not-forward, removed-early
+  M2 periodic.advance_cron_trigger: croniter from t.next_execution_time, not max(now, ..) -> next-not-pattern
+  M3 periodic.advance_cron_trigger: decrement only if remaining_executions > 1      -> count-exceeded, not-removed, count-changed
+  M4 periodic.process_cron_triggers_v2: `if modified is not None:` (losers start too) -> double-start, count-exceeded
+  M5 periodic.process_cron_triggers_v2: trust context not installed before the start -> context:trust
+  M6 triggers.get_next_cron_triggers: window of 60 s instead of 2 s                  -> early-start
+  M7 triggers.validate_cron_trigger_input: `count > 2` without pattern               -> first-only-count (+ create disagreement)
+  M8 db api update_cron_trigger: NoRowsMatched returns (trigger, 1)                  -> double-start, count-exceeded
+  M9 periodic.process_cron_triggers_v2: start_workflow with {} instead of the input -> context:input
+  MX periodic.advance_cron_trigger: delete by t.id, update by t.name                 -> translate:Gen/CronCfg.v broken (fail closed)
+Every mutation is also seen as model/implementation disagreements by the correspondence.
 """
 import datetime
 import json
@@ -366,7 +389,7 @@ class World:
         last = self.last.get(i)
         if was[0] == 'before_adv':
             k = self.key_of_id.get(was[1], -1)
-            return ('adv', i, k, bool(last and last[0] == 'adv' and last[2]))
+            return ('adv', i, k, bool(last and last[0] == 'adv' and last[2]), was[2])
         if was[0] == 'before_start':
             if last and last[0] == 'start':
                 r = last[1]
@@ -672,32 +695,26 @@ def name_ids(case):
 
 
 def nxt_table(case, log):
-    """croniter's values (through the real triggers.get_next_execution_time) on the closure of the times the
-    case can ask for: clock values and previous results."""
+    """croniter's values (through the real triggers.get_next_execution_time) at the times the protocol can ask
+    for: max(clock, read next_execution_time) of every advance step."""
     Env.boot()
     gnet = Env.mods['triggers'].get_next_execution_time
-    clocks = sorted({case['t0']} | {e['clock'] for e in log['steps']})
-    tbl = []
-    bad = []
-    for k, t in log['trig'].items():
-        n_adv = sum(1 for e in log['steps'] if e['obs'][0] == 'adv' and e['obs'][2] == k) + 1
-        seen = {}
-        frontier = set(clocks) | {log['view0'][k][0]}
-        for _ in range(n_adv):
-            new = set()
-            for a in frontier:
-                if a in seen:
-                    continue
-                try:
-                    v = sec(gnet(t['pattern'], dt(a)))
-                except Exception:
-                    continue
-                seen[a] = v
-                if not v > a:
-                    bad.append((k, a, v))
-                new.add(v)
-            frontier = new
-        tbl += [(k, a, v) for a, v in sorted(seen.items())]
+    tbl, bad, seen = [], [], set()
+    for e in log['steps']:
+        ob = e['obs']
+        if ob[0] != 'adv' or ob[2] not in log['trig']:
+            continue
+        k, a = ob[2], max(e['clock'], ob[4])
+        if (k, a) in seen:
+            continue
+        seen.add((k, a))
+        try:
+            v = sec(gnet(log['trig'][k]['pattern'], dt(a)))
+        except Exception:
+            continue            # e.g. the 'never' default pattern: the real code fails the same way (caught, logged)
+        if not v > a:
+            bad.append((k, a, v))
+        tbl.append((k, a, v))
     return tbl, bad
 
 
@@ -859,27 +876,60 @@ def rest_count_type():
     return [a for a in wtypes.list_attributes(resources.CronTrigger) if a.name == 'remaining_executions'][0].datatype
 
 
-def suite_create(ctx):
-    """Exhaustive decision table of creation-time validation (finite: every combination is run)."""
+def first_args(first):
+    """(argument given to create_cron_trigger, seconds or None) of a first-time descriptor."""
+    if isinstance(first, (tuple, list)):
+        return (dt(first[1]).strftime('%Y-%m-%d %H:%M'), first[1]) if first[0] == 'str' else (first[1], None)
+    return (None if first is None else dt(first)), first
+
+
+def create_eval(desc):
+    """The real validate_cron_trigger_input and create_cron_trigger on one row of the decision table."""
     Env.boot()
     m = Env.mods
     from mistral import exceptions as exc
     Env.set_auth(False)
     proj = m['security'].DEFAULT_PROJECT_ID
     wf_name = Env.wf_ids[proj][0]
+    Env.wipe()
+    Env.clock = desc['t0']
+    first = desc['first']
+    raw = isinstance(first, (tuple, list)) and first[0] == 'raw'
+    farg, fsec = first_args(first)
+    m['auth_ctx'].set_ctx(Env.user_ctx(proj))
+    v_impl = None
+    try:
+        if not raw:
+            try:
+                m['triggers'].validate_cron_trigger_input(desc['pattern'], None if fsec is None else dt(fsec), desc['count'])
+                v_impl = 'ok'
+            except exc.InvalidModelException:
+                v_impl = 'rejected'
+            except Exception as e:
+                v_impl = 'crash:' + type(e).__name__
+        try:
+            trig = m['triggers'].create_cron_trigger('n', wf_name, {'x': 1}, {}, desc['pattern'], farg, desc['count'],
+                                                     None if desc['start'] is None else dt(desc['start']))
+            r = Env.rows()[trig.id]
+            impl = [1, r['next'], 0 if r['rem'] is None else 1, 0 if r['rem'] is None else r['rem']]
+        except exc.InvalidModelException:
+            impl = [0]
+        except Exception as e:
+            impl = ['crash:' + type(e).__name__]
+    finally:
+        m['auth_ctx'].set_ctx(None)
+        Env.wipe()
+    return v_impl, impl
+
+
+def _work_create(descs):
+    return [create_eval(d) for d in descs]
+
+
+def create_table():
     pats = [None, '', '* * * * *', '*/5 * * * *'] + BAD_PATTERNS
     counts = [None, -1, 0, 1, 2, 7]
-    cases, exprs = [], []
-    dist = {'ok': 0, 'rejected': 0}
-    ctype = rest_count_type()
-    for c in counts + [3, 100, -5]:
-        try:
-            ctype.validate(c) if c is not None else None
-            impl = True
-        except ValueError:
-            impl = False
-        cases.append(('rest', c, impl))
-        exprs.append('rest_count_ok %s' % core.coq_option(None if c is None else core.coq_Z(c)))
+    out = []
     for t0 in (100000, 86400 * 31 - 30):
         firsts = [None, t0 - 10, t0, t0 + 59, t0 + 60, t0 + 61, t0 + 3600, ('str', (t0 // 60 + 3) * 60), ('str', (t0 // 60) * 60),
                   ('raw', 'garbage')]
@@ -887,56 +937,56 @@ def suite_create(ctx):
             for first in firsts:
                 for count in counts:
                     for start in (None, t0 - 3600):
-                        Env.wipe()
-                        Env.clock = t0
-                        m['auth_ctx'].set_ctx(Env.user_ctx(proj))
-                        if isinstance(first, tuple):
-                            farg = dt(first[1]).strftime('%Y-%m-%d %H:%M') if first[0] == 'str' else first[1]
-                            fsec = first[1] if first[0] == 'str' else None
-                        else:
-                            farg = None if first is None else dt(first)
-                            fsec = first
-                        # validate_cron_trigger_input directly (datetime argument) ...
-                        v_impl = None
-                        if not (isinstance(first, tuple) and first[0] == 'raw'):
-                            try:
-                                m['triggers'].validate_cron_trigger_input(pat, None if fsec is None else dt(fsec), count)
-                                v_impl = 'ok'
-                            except exc.InvalidModelException:
-                                v_impl = 'rejected'
-                            except Exception as e:
-                                v_impl = 'crash:' + type(e).__name__
-                        # ... and the whole create_cron_trigger
-                        try:
-                            trig = m['triggers'].create_cron_trigger('n', wf_name, {'x': 1}, {}, pat, farg, count,
-                                                                     None if start is None else dt(start))
-                            rows = Env.rows()
-                            r = rows[trig.id]
-                            impl = [1, r['next'], 0 if r['rem'] is None else 1, 0 if r['rem'] is None else r['rem']]
-                        except exc.InvalidModelException:
-                            impl = [0]
-                        except Exception as e:
-                            impl = ['crash:' + type(e).__name__]
-                        finally:
-                            m['auth_ctx'].set_ctx(None)
-                        desc = {'t0': t0, 'pattern': pat, 'first': first, 'count': count, 'start': start}
-                        if isinstance(first, tuple) and first[0] == 'raw':
-                            # an unparsable first time must be refused (no model input corresponds to it)
-                            ctx.count('create', repr(desc))
-                            if impl != [0]:
-                                ctx.fail('create-accepts-garbage-first-time', 'create_cron_trigger accepts %r' % (desc,), {'create': desc})
-                            continue
-                        if v_impl is not None and (v_impl == 'ok') != (impl != [0]) or (v_impl or '').startswith('crash'):
-                            ctx.disagree('create', desc, 'validate_cron_trigger_input=%s' % v_impl, impl)
-                        nxv = 0
-                        if fsec is None and pat and pat not in BAD_PATTERNS:
-                            nxv = croniter_next(pat, start if start is not None else t0)
-                        t = {'pattern': pat, 'first': fsec, 'count': count, 'start': start}
-                        exprs.append('match %s with Some (n, r) => (1%%Z :: Z.of_N n :: zrem r) | None => [0%%Z] end'
-                                     % coq_create({'t0': t0}, t, nxv))
-                        cases.append(('create', desc, impl))
-                        dist['ok' if impl != [0] else 'rejected'] += 1
-    Env.wipe()
+                        out.append({'t0': t0, 'pattern': pat, 'first': first, 'count': count, 'start': start})
+    return out
+
+
+def suite_create(ctx):
+    """Exhaustive decision table of creation-time validation (finite: every combination is run)."""
+    cases, exprs = [], []
+    dist = {'ok': 0, 'rejected': 0}
+    table = create_table()
+    results = None
+    if _POOL[0] is not None:
+        try:
+            ex, warm = _POOL[0]
+            for f in warm:
+                f.result(timeout=300)
+            chunks = [table[i:i + 40] for i in range(0, len(table), 40)]
+            results = [r for part in ex.map(_work_create, chunks) for r in part]
+        except Exception:
+            results = None
+    if results is None:
+        results = _work_create(table)
+    Env.boot()
+    ctype = rest_count_type()
+    for c in [None, -1, 0, 1, 2, 7, 3, 100, -5]:
+        try:
+            ctype.validate(c) if c is not None else None
+            impl = True
+        except ValueError:
+            impl = False
+        cases.append(('rest', c, impl))
+        exprs.append('rest_count_ok %s' % core.coq_option(None if c is None else core.coq_Z(c)))
+    for desc, (v_impl, impl) in zip(table, results):
+        first, pat, t0, start, count = desc['first'], desc['pattern'], desc['t0'], desc['start'], desc['count']
+        if isinstance(first, tuple) and first[0] == 'raw':
+            # an unparsable first time must be refused (no model input corresponds to it)
+            ctx.count('create', repr(desc))
+            if impl != [0]:
+                ctx.fail('create-accepts-garbage-first-time', 'create_cron_trigger accepts %r' % (desc,), {'create': desc})
+            continue
+        fsec = first_args(first)[1]
+        if v_impl is not None and (v_impl == 'ok') != (impl != [0]) or (v_impl or '').startswith('crash'):
+            ctx.disagree('create', desc, 'validate_cron_trigger_input=%s' % v_impl, impl)
+        nxv = 0
+        if fsec is None and pat and pat not in BAD_PATTERNS:
+            nxv = croniter_next(pat, start if start is not None else t0)
+        t = {'pattern': pat, 'first': fsec, 'count': count, 'start': start}
+        exprs.append('match %s with Some (n, r) => (1%%Z :: Z.of_N n :: zrem r) | None => [0%%Z] end'
+                     % coq_create({'t0': t0}, t, nxv))
+        cases.append(('create', desc, impl))
+        dist['ok' if impl != [0] else 'rejected'] += 1
     res = core.coq_eval('c17create', IMPORTS, exprs, chunk=200)
     for c, r in zip(cases, res):
         ctx.cov['disagreements_checked'] += 1
@@ -1103,6 +1153,22 @@ def replay(obj):
     import logging
     logging.disable(logging.CRITICAL)
     r = obj.get('replay', {})
+    if 'create' in r:
+        v, impl = create_eval(r['create'])
+        print('create_cron_trigger(%r) -> validate=%s stored=%s (%s)' % (r['create'], v, impl, obj.get('what')))
+        d = r['create']
+        garbage = isinstance(d['first'], (list, tuple)) and d['first'][0] == 'raw'
+        bad = (garbage and impl != [0]) or (not garbage and impl != [0] and not d['pattern'] and d['first'] is not None
+                                            and (d['count'] is None or d['count'] >= 1) and impl[2:] != [1, 1])
+        return 1 if bad else 0
+    if 'rest_count' in r:
+        try:
+            rest_count_type().validate(r['rest_count'])
+            print('REST type accepts remaining_executions=%r' % r['rest_count'])
+            return 1
+        except ValueError as e:
+            print('REST type refuses remaining_executions=%r: %s' % (r['rest_count'], e))
+            return 0
     if 'case' not in r:
         print(json.dumps(obj, indent=1)[:4000])
         return 1
